@@ -1,9 +1,14 @@
 package main
 
 import (
+	"os"
+
 	"verif/internal/core"
+	"verif/internal/specgen"
 
 	_ "verif/internal/props/c03"
+	_ "verif/internal/props/c06"
+	_ "verif/internal/props/c07"
 	_ "verif/internal/props/c09"
 	_ "verif/internal/props/c10"
 	_ "verif/internal/props/c11"
@@ -15,4 +20,10 @@ import (
 	_ "verif/internal/props/c20"
 )
 
-func main() { core.Main() }
+func main() {
+	if len(os.Args) == 3 && os.Args[1] == "-child" {
+		specgen.ChildMain(os.Args[2])
+		return
+	}
+	core.Main()
+}
